@@ -33,3 +33,12 @@
     pub open spec fn same_state(&self, o: &Watcher) -> bool {
         self.others_same(o) && self.dbm.inner == o.dbm.inner && self.responder == o.responder && self.gatekeeper.unchanged(&o.gatekeeper)
     }
+    // winv except that the Gatekeeper's handle on the database may lag behind (it is re-synchronised before it is used)
+    pub open spec fn winv_but_gk_db(&self) -> bool {
+        &&& self.cache().wf() && self.cache().size >= 1 && self.cache_ok()
+        &&& self.responder.dbm.inner == self.dbm.inner
+        &&& self.gatekeeper.registered_users.inner@ =~= self.db().users
+        &&& (forall|u: UUID| #[trigger] self.db().appts.contains_key(u) ==> self.db().appts[u].blob.len() <= MAX_BLOB)
+        &&& self.responder.rinv()
+        &&& Self::uuid_ok(self.db())
+    }
